@@ -5,7 +5,7 @@
    geometry-level predicates being exact (contains => intersects, self
    containment, rect-as-polygon for polygon pairs) are checked on every run as
    law flags computed from the implementation's own answers. *)
-From GJ Require Import Base Kernel Series Ring Pairs Obj ObjSpec ObjProofs BoxLaws ContainsBoxes.
+From GJ Require Import Base Kernel Series Ring Pairs Obj ObjSpec ObjProofs BoxLaws ContainsBoxes CoversBoxes.
 Open Scope Z_scope.
 
 Theorem C09_within_is_contains_swapped : forall a b, o_within a b = o_contains b a.
@@ -47,12 +47,19 @@ Proof. exact leaf_intersects. Qed.
 Theorem C09_intersects_implies_rects_meet : forall a b, obj_wf a -> obj_wf b ->
   o_intersects a b = true -> rect_intersects_rect (o_rect a) (o_rect b) = true.
 Proof. exact o_intersects_boxes. Qed.
-(* if A contains a non-empty B their rectangles meet (the covering of B's rectangle is checked as a flag) *)
+(* if A contains a non-empty B their rectangles meet (weaker than C09_contains_implies_rect_covers below; kept) *)
 Theorem C09_contains_implies_rects_meet_partial : forall a b, obj_wf a -> obj_wf b -> o_empty b = false ->
   o_contains a b = true -> rect_intersects_rect (o_rect a) (o_rect b) = true.
 Proof. exact o_contains_boxes. Qed.
 
+(* if A contains a non-empty B then A's rectangle covers B's: all sixteen geometry pairs (the Line.ContainsLine
+   walk included), Features, collections, nested *)
+Theorem C09_contains_implies_rect_covers : forall a b, obj_wf a -> obj_wf b -> o_empty b = false ->
+  o_contains a b = true -> rect_contains_rect (o_rect a) (o_rect b) = true.
+Proof. exact o_contains_covers. Qed.
+
 Print Assumptions C09_intersects_implies_rects_meet.
+Print Assumptions C09_contains_implies_rect_covers.
 Print Assumptions C09_contains_implies_rects_meet_partial.
 Print Assumptions C09_feature_argument_contains.
 Print Assumptions C09_simplepoint_argument.
